@@ -1,9 +1,367 @@
 /-
-  C18 — processing is sentence-local, deterministic and history-independent (theorems being added)
+  C18 — processing is sentence-local, deterministic and history-independent
 -/
 import TT.Proc
 import TT.IO.Read
+import TT.Lemmas.Proc
 namespace TT.Props.C18
-open TT TT.Tree
+open TT TT.Tree TT.Spec TT.Lemmas.Proc
+
+/-- the cache invariant: a loaded table is the parse of the file it was loaded from -/
+def CacheOK (needPos : Bool) (fs : Str → Option Str) : Loaded → Prop
+  | .absent => True
+  | .ok fn t => ∃ c, fs fn = some c ∧ parseTermFile needPos c = .ok t
+  | .broken _ => False
+def StateOK (fs : Str → Option Str) (st : ProcState) : Prop := CacheOK false fs st.sub ∧ CacheOK true fs st.ins
+
+/-! ### concrete file system and history used in the examples -/
+
+/-- `t1`: two sentences; `t2`: four-column file for `insert_terminals`; `dup`: index 1 of sentence 1 twice
+    (`ValueError`); `short`: three columns only (fine for substitute, `IndexError` for insert) -/
+def exFs (fn : Str) : Option Str :=
+  if fn = "t1".toList then some "1 2 dog N\n1 1 the D\n2 1 it\n".toList
+  else if fn = "t2".toList then some "1 3 now ADV\n".toList
+  else if fn = "dup".toList then some "1 1 a X\n1 1 b Y\n".toList
+  else if fn = "short".toList then some "1 1 a\n".toList
+  else none
+
+/-- `(S a/1 b/2)` -/
+def exTree : Tree :=
+  node { label := "S".toList }
+    [leaf 1 { label := "A".toList, word := some "a".toList }, leaf 2 { label := "B".toList, word := some "b".toList }]
+
+/-- substitute(t1) ; insert(t2) ; substitute(dup) ; substitute(dup) ; substitute(t1) -/
+def exHist : List Call :=
+  [.substitute "t1".toList 1 exTree, .insert "t2".toList 1 exTree, .substitute "dup".toList 1 exTree,
+   .substitute "dup".toList 1 exTree, .substitute "t1".toList 1 exTree]
+
+/-- a decidable view of a result: the error, or the (number, word, tag) of every token -/
+def view : Except Err Tree → Except Err (List (Nat × Str × Str))
+  | .error e => .error e
+  | .ok t => .ok (t.terminals.map fun l => (l.num, l.fields.word.getD [], l.fields.label))
+
+/-! ### the cache protocol -/
+
+theorem loadTable_result (needPos : Bool) (fs : Str → Option Str) (st : Loaded) (fn : Str) (h : CacheOK needPos fs st) :
+    (loadTable needPos fs st fn).1 = (loadTable needPos fs .absent fn).1 ∧ CacheOK needPos fs (loadTable needPos fs st fn).2 := by
+  have hreload : CacheOK needPos fs (loadTable.reload needPos fs fn).2 := by
+    unfold loadTable.reload
+    cases h1 : fs fn with
+    | none => trivial
+    | some c =>
+      cases h2 : parseTermFile needPos c with
+      | error e => trivial
+      | ok t => exact ⟨c, h1, h2⟩
+  cases st with
+  | absent => exact ⟨rfl, hreload⟩
+  | broken f => exact absurd h id
+  | ok f t =>
+    by_cases hf : f = fn
+    · subst hf
+      obtain ⟨c, h1, h2⟩ := h
+      rw [loadTable_ok_hit, loadTable_absent, reload_of_parse_ok needPos fs f c t h1 h2]
+      exact ⟨rfl, c, h1, h2⟩
+    · rw [loadTable_ok_miss needPos fs f fn t hf, loadTable_absent]
+      exact ⟨rfl, hreload⟩
+
+/-- a state whose substitute cache holds `t1`: loading `t1` again, or another file, gives what a fresh process gives -/
+example : CacheOK false exFs (loadTable false exFs .absent "t1".toList).2 :=
+  (loadTable_result false exFs .absent "t1".toList trivial).2
+example : (loadTable false exFs (loadTable false exFs .absent "t1".toList).2 "t1".toList).1 =
+      .ok [(1, [(2, "dog".toList, some "N".toList), (1, "the".toList, some "D".toList)]), (2, [(1, "it".toList, none)])] ∧
+    (loadTable false exFs (loadTable false exFs .absent "t1".toList).2 "short".toList).1 =
+      .ok [(1, [(1, "a".toList, none)])] ∧
+    (loadTable true exFs .absent "short".toList).1 = .error .indexError ∧
+    (loadTable false exFs .absent "nofile".toList).1 = .error .other := by decide
+
+/-- one call: same result from any reachable state as from the initial state, and the state stays consistent -/
+theorem call_history_independent (fs : Str → Option Str) (st : ProcState) (c : Call) (h : StateOK fs st) :
+    (c.run fs st).1 = (c.run fs {}).1 ∧ StateOK fs (c.run fs st).2 := by
+  obtain ⟨hs, hi⟩ := h
+  cases c with
+  | substitute fn sid t =>
+    obtain ⟨h1, h2⟩ := loadTable_result false fs st.sub fn hs
+    simp only [Call.run]
+    exact ⟨by rw [h1], h2, hi⟩
+  | insert fn sid t =>
+    obtain ⟨h1, h2⟩ := loadTable_result true fs st.ins fn hi
+    simp only [Call.run]
+    exact ⟨by rw [h1], hs, h2⟩
+  | pure t => exact ⟨rfl, hs, hi⟩
+
+theorem stateOK_init (fs : Str → Option Str) : StateOK fs {} := ⟨trivial, trivial⟩
+
+/-- the state reached after the first two calls of the example history is consistent -/
+example : StateOK exFs ((Call.insert "t2".toList 1 exTree).run exFs
+    ((Call.substitute "t1".toList 1 exTree).run exFs {}).2).2 :=
+  (call_history_independent exFs _ _ (call_history_independent exFs _ _ (stateOK_init exFs)).2).2
+
+/-- histories from any consistent state -/
+theorem history_independent_from (fs : Str → Option Str) (cs : List Call) : ∀ st : ProcState, StateOK fs st →
+    runHistory fs st cs = cs.map fun c => (c.run fs {}).1 := by
+  induction cs with
+  | nil => intro st _; rfl
+  | cons c cs ih =>
+    intro st h
+    obtain ⟨h1, h2⟩ := call_history_independent fs st c h
+    simp only [runHistory, List.map_cons]
+    rw [h1, ih _ h2]
+
+/-- MAIN: in every history over a file system that does not change, the k-th call returns what it returns in a fresh process -/
+theorem history_independent (fs : Str → Option Str) (cs : List Call) :
+    runHistory fs {} cs = cs.map fun c => (c.run fs {}).1 :=
+  history_independent_from fs cs {} (stateOK_init fs)
+
+example : runHistory exFs {} exHist = exHist.map fun c => (c.run exFs {}).1 := history_independent exFs exHist
+
+/-- the example history, evaluated: both `dup` calls raise `ValueError`, the last call repeats the first result -/
+example : (runHistory exFs {} exHist).map view =
+    [.ok [(1, "the".toList, "D".toList), (2, "dog".toList, "N".toList)],
+     .ok [(1, "a".toList, "A".toList), (2, "b".toList, "B".toList), (3, "now".toList, "ADV".toList)],
+     .error .valueError, .error .valueError,
+     .ok [(1, "the".toList, "D".toList), (2, "dog".toList, "N".toList)]] := by decide
+/-- and call by call in a fresh process -/
+example : (exHist.map fun c => view (c.run exFs {}).1) =
+    [.ok [(1, "the".toList, "D".toList), (2, "dog".toList, "N".toList)],
+     .ok [(1, "a".toList, "A".toList), (2, "b".toList, "B".toList), (3, "now".toList, "ADV".toList)],
+     .error .valueError, .error .valueError,
+     .ok [(1, "the".toList, "D".toList), (2, "dog".toList, "N".toList)]] := by decide
+
+/-- a failed load leaves no trace (the repaired behaviour): a retry gives the same error -/
+theorem failed_load_retry (needPos : Bool) (fs : Str → Option Str) (st : Loaded) (fn : Str) (e : Err)
+    (h : (loadTable needPos fs st fn).1 = .error e) (hst : CacheOK needPos fs st) :
+    (loadTable needPos fs (loadTable needPos fs st fn).2 fn).1 = .error e := by
+  obtain ⟨h1, h2⟩ := loadTable_result needPos fs st fn hst
+  obtain ⟨h3, _⟩ := loadTable_result needPos fs _ fn h2
+  rw [h3, ← h1, h]
+
+/-- the failing load of `dup` from a state that has `t1` cached -/
+example : (loadTable false exFs (.ok "t1".toList []) "dup".toList).1 = .error .valueError ∧
+    (loadTable false exFs (loadTable false exFs (.ok "t1".toList []) "dup".toList).2 "dup".toList).1 =
+      .error .valueError := by decide
+
+/-- a failed load leaves the cache empty -/
+theorem failed_load_state (needPos : Bool) (fs : Str → Option Str) (st : Loaded) (fn : Str) (e : Err)
+    (h : (loadTable needPos fs st fn).1 = .error e) : (loadTable needPos fs st fn).2 = .absent := by
+  have hreload : (loadTable.reload needPos fs fn).1 = .error e → (loadTable.reload needPos fs fn).2 = .absent := by
+    unfold loadTable.reload
+    cases fs fn with
+    | none => intro _; rfl
+    | some c =>
+      cases parseTermFile needPos c with
+      | error e => intro _; rfl
+      | ok t => intro h; cases h
+  cases st with
+  | absent => exact hreload h
+  | broken f => exact hreload h
+  | ok f t =>
+    by_cases hf : f = fn
+    · subst hf
+      rw [loadTable_ok_hit] at h
+      cases h
+    · rw [loadTable_ok_miss needPos fs f fn t hf] at h ⊢
+      exact hreload h
+
+/-! ### sentence locality of extraction -/
+
+/-- extraction from an arbitrary start state adds pointwise -/
+theorem foldl_extract_counts (ts : List Tree) (st : Grammar × Lexicon) (f : Func) (l : Lin) (v : VertKey) :
+    gramCount (ts.foldl (fun st t => extract t st) st).1 f l v =
+      gramCount st.1 f l v + gramCount (extractAll ts).1 f l v := by
+  rw [foldl_extract_gramCount, extractAll_gramCount]
+
+theorem foldl_extract_lex (ts : List Tree) (st : Grammar × Lexicon) (w t : Str) :
+    lexCount (ts.foldl (fun st t => extract t st) st).2 w t = lexCount st.2 w t + lexCount (extractAll ts).2 w t := by
+  rw [foldl_extract_lexCount, extractAll_lexCount]
+
+-- sentence locality of extraction: the grammar and lexicon of a concatenation are the pointwise sums
+theorem extract_append_counts (ts us : List Tree) (f : Func) (l : Lin) (v : VertKey) :
+    gramCount (extractAll (ts ++ us)).1 f l v = gramCount (extractAll ts).1 f l v + gramCount (extractAll us).1 f l v := by
+  simp only [extractAll_gramCount, ruleOcc_append]
+
+theorem extract_append_lex (ts us : List Tree) (w t : Str) :
+    lexCount (extractAll (ts ++ us)).2 w t = lexCount (extractAll ts).2 w t + lexCount (extractAll us).2 w t := by
+  simp only [extractAll_lexCount, lexOcc_append]
+
+/-- every count is the number of occurrences of the entry in the treebank -/
+theorem extract_counts_occ (ts : List Tree) (f : Func) (l : Lin) (v : VertKey) (w t : Str) :
+    gramCount (extractAll ts).1 f l v = ruleOcc f l v ts ∧ lexCount (extractAll ts).2 w t = lexOcc w t ts :=
+  ⟨extractAll_gramCount f l v ts, extractAll_lexCount w t ts⟩
+
+/-- `(S (VP saw/1 up/4 it/3) he/2 (NP it/7 now/6))` from C06, and a small second tree sharing `it/N` -/
+def exU : Tree :=
+  node { label := "NP".toList }
+    [leaf 1 { label := "N".toList, word := some "it".toList }, leaf 2 { label := "ADV".toList, word := some "now".toList }]
+
+example : gramCount (extractAll ([TT.Props.C06.exT] ++ [exU, TT.Props.C06.exT])).1
+      TT.Props.C06.exF TT.Props.C06.exL (.ctx ["S2".toList]) = 2 ∧
+    gramCount (extractAll [TT.Props.C06.exT]).1 TT.Props.C06.exF TT.Props.C06.exL (.ctx ["S2".toList]) = 1 ∧
+    gramCount (extractAll [exU, TT.Props.C06.exT]).1 TT.Props.C06.exF TT.Props.C06.exL (.ctx ["S2".toList]) = 1 := by
+  decide
+example : lexCount (extractAll ([TT.Props.C06.exT] ++ [exU, TT.Props.C06.exT])).2 "it".toList "N".toList = 5 ∧
+    lexCount (extractAll [TT.Props.C06.exT]).2 "it".toList "N".toList = 2 ∧
+    lexCount (extractAll [exU, TT.Props.C06.exT]).2 "it".toList "N".toList = 3 := by decide
+
+/-! ### statistics of a concatenation -/
+
+-- statistics of a concatenation are the sums
+theorem gapstats_append (s : GapStats) (ts us : List Tree) :
+    GapStats.total ((ts ++ us).foldl GapStats.run s).perTree = GapStats.total (ts.foldl GapStats.run s).perTree + us.length ∧
+    GapStats.total (ts.foldl GapStats.run s).perTree = GapStats.total s.perTree + ts.length := by
+  rw [List.foldl_append, foldl_run_perTree_total us, foldl_run_perTree_total ts]
+  exact ⟨rfl, rfl⟩
+
+example : ([TT.Props.C06.exT, exU] ++ [TT.Props.C06.exT]).foldl GapStats.run {} =
+    { perNode := [(1, 4), (0, 3)], perTree := [(1, 2), (0, 1)] } := by decide
+
+/-! ### the export reader is sentence local -/
+
+/-- every `#BOS` in the block of lines is closed by an `#EOS` (no sentence is open at the end) -/
+def Complete (a : List Str) : Prop := openAfter false a = false
+instance (a : List Str) : Decidable (Complete a) := by unfold Complete; infer_instance
+
+/-- number of sentences (`#BOS` ... `#EOS` groups) closed in the block -/
+def sentences (a : List Str) : Nat := closedCount false a
+
+/-- readers are sentence local — the replacement of the loose statement, exactly in the suggested form:
+    after a complete prefix that was read successfully the reader is back in its initial state except for the
+    tree counter, which has advanced by the number of sentences of the prefix -/
+theorem exportLoop_append (o : InOpts) (a b : List Str) (tc : Nat) (acc : List (Nat × Tree)) (ra : List (Nat × Tree))
+    (ha : exportLoop o a none tc acc = .ok ra) (hcomplete : Complete a) :
+    exportLoop o (a ++ b) none tc acc = exportLoop o b none (tc + sentences a) ra.reverse ∧
+    ra.length = acc.length + sentences a := by
+  rw [exportLoop_eq_scan] at ha
+  rw [exportLoop_append_scan]
+  cases hs : exportScan o a none tc acc with
+  | error e => rw [hs] at ha; cases ha
+  | ok s =>
+    rw [hs] at ha
+    obtain ⟨h1, h2, new, h3, h4⟩ := exportScan_state o a none tc acc s hs
+    simp only [Except.map, Except.ok.injEq] at ha
+    subst ha
+    have hc : openAfter false a = false := hcomplete
+    simp only [Option.isSome_none, hc] at h1 h2 h4
+    have h1' : s.1 = none := by cases h : s.1 <;> simp_all
+    simp only [h1', h2, List.reverse_reverse, sentences, List.length_reverse, h3, List.length_append, h4]
+    exact ⟨rfl, by omega⟩
+
+/-- the same without assuming that the prefix reads successfully, and with the result spelled out:
+    reading `a ++ b` = reading `a`, reading `b` with the tree counter advanced, concatenating -/
+theorem exportLoop_append_results (o : InOpts) (a b : List Str) (tc : Nat) (hcomplete : Complete a) :
+    exportLoop o (a ++ b) none tc [] =
+      match exportLoop o a none tc [] with
+      | .error e => .error e
+      | .ok ra => (exportLoop o b none (tc + sentences a) []).map (ra ++ ·) := by
+  cases ha : exportLoop o a none tc [] with
+  | error e =>
+    rw [exportLoop_append_scan]
+    rw [exportLoop_eq_scan] at ha
+    cases hs : exportScan o a none tc [] with
+    | error e' => rw [hs] at ha; simp only [Except.map] at ha; cases ha; rfl
+    | ok s => rw [hs] at ha; cases ha
+  | ok ra =>
+    rw [(exportLoop_append o a b tc [] ra ha hcomplete).1, exportLoop_acc]
+    simp
+
+/-- ... and in terms of the ids: with `continuous` the ids of the second part are shifted by the number of
+    sentences of the first part, otherwise they are the `#BOS` ids and nothing changes -/
+theorem exportLoop_append_renum (o : InOpts) (a b : List Str) (tc : Nat) (hcomplete : Complete a) :
+    exportLoop o (a ++ b) none tc [] =
+      match exportLoop o a none tc [], exportLoop o b none tc [] with
+      | .error e, _ => .error e
+      | .ok _, .error e => .error e
+      | .ok ra, .ok rb => .ok (ra ++ rb.map (renum o (sentences a))) := by
+  rw [exportLoop_append_results o a b tc hcomplete]
+  have hsh := exportLoop_shift o (sentences a) b none tc []
+  simp only [List.map_nil] at hsh
+  rw [hsh]
+  cases exportLoop o a none tc [] with
+  | error e => rfl
+  | ok ra => cases exportLoop o b none tc [] <;> rfl
+
+/-- an open sentence at the end of the prefix is NOT harmless (why `Complete` is needed): the lines of `b` are
+    swallowed into the open sentence.  Stated as the general law: the reader continues from the scanned state. -/
+theorem exportLoop_append_general (o : InOpts) (a b : List Str) (cur : Option (Nat × List Str)) (tc : Nat)
+    (acc : List (Nat × Tree)) :
+    exportLoop o (a ++ b) cur tc acc =
+      match exportScan o a cur tc acc with
+      | .error e => .error e
+      | .ok s => exportLoop o b s.1 s.2.1 s.2.2 :=
+  exportLoop_append_scan o b a cur tc acc
+
+/-- the lines of a text -/
+abbrev lines (text : Str) : List Str := splitOnChar '\n' text
+
+/-- corollary for texts: `a` is a text whose lines are complete; the text `a ++ "\n" ++ b` (i.e. `a` terminated
+    by a newline, followed by `b`) reads as `a` followed by `b` -/
+theorem readExport_append (o : InOpts) (a b : Str) (hcomplete : Complete (lines a)) :
+    readExport o (a ++ '\n' :: b) =
+      match readExport o a, readExport o b with
+      | .error e, _ => .error e
+      | .ok _, .error e => .error e
+      | .ok ra, .ok rb => .ok (ra ++ rb.map (renum o (sentences (lines a)))) := by
+  unfold readExport
+  rw [TT.Lemmas.Collapse.splitOnChar_append_sep]
+  exact exportLoop_append_renum o _ _ 1 hcomplete
+
+/-- a final newline after a complete text changes nothing -/
+theorem readExport_newline (o : InOpts) (a : Str) (hcomplete : Complete (lines a)) :
+    readExport o (a ++ ['\n']) = readExport o a := by
+  unfold readExport
+  rw [splitOnChar_snoc_sep, exportLoop_append_results o _ _ 1 hcomplete]
+  cases exportLoop o (splitOnChar '\n' a) none 1 [] with
+  | error e => rfl
+  | ok ra =>
+    have : exportLoop o [[]] none (1 + sentences (splitOnChar '\n' a)) [] = .ok [] := by decide
+    simp [this, Except.map]
+
+theorem complete_newline (a : Str) (h : Complete (lines a)) : Complete (lines (a ++ ['\n'])) := by
+  unfold Complete lines at *
+  rw [splitOnChar_snoc_sep, openAfter_append, h]
+  decide
+
+theorem sentences_newline (a : Str) : sentences (lines (a ++ ['\n'])) = sentences (lines a) := by
+  unfold sentences lines
+  rw [splitOnChar_snoc_sep, closedCount_append]
+  cases openAfter false (splitOnChar '\n' a) <;> simp [closedCount, closes, isEOS, stripLine]
+
+/-- the corollary in the form of the brief: `a` ends with a newline -/
+theorem readExport_append_nl (o : InOpts) (a b : Str) (hcomplete : Complete (lines a)) :
+    readExport o ((a ++ ['\n']) ++ b) =
+      match readExport o (a ++ ['\n']), readExport o b with
+      | .error e, _ => .error e
+      | .ok _, .error e => .error e
+      | .ok ra, .ok rb => .ok (ra ++ rb.map (renum o (sentences (lines (a ++ ['\n']))))) := by
+  rw [readExport_newline o a hcomplete, sentences_newline, ← readExport_append o a b hcomplete]
+  simp
+
+/-- without `continuous` the ids are the `#BOS` ids: the trees of a concatenation are the concatenation -/
+theorem readExport_append_ids (o : InOpts) (a b : Str) (hcomplete : Complete (lines a)) (hc : o.continuous = false)
+    (ra rb : List (Nat × Tree)) (ha : readExport o a = .ok ra) (hb : readExport o b = .ok rb) :
+    readExport o (a ++ '\n' :: b) = .ok (ra ++ rb) := by
+  rw [readExport_append o a b hcomplete, ha, hb]
+  have : rb.map (renum o (sentences (lines a))) = rb := by
+    have hf : renum o (sentences (lines a)) = id := by funext p; simp [renum, hc]
+    rw [hf, List.map_id]
+  simp [this]
+
+/-! concrete export texts: two complete sentences and a third one -/
+
+def exA : Str := "#BOS 7\nthe\t--\tD\t--\tHD\t500\ndog\t--\tN\t--\tHD\t500\n#500\t--\tNP\t--\t--\t0\n#EOS 7\n%% comment\n#BOS 9\nit\t--\tN\t--\tHD\t0\n#EOS 9".toList
+def exB : Str := "#BOS 3\nnow\t--\tADV\t--\tHD\t0\n#EOS 3\n".toList
+
+/-- ids and number of tokens of the trees read -/
+def ids : Except Err (List (Nat × Tree)) → Except Err (List (Nat × Nat))
+  | .error e => .error e
+  | .ok r => .ok (r.map fun p => (p.1, p.2.leafNums.length))
+
+example : Complete (lines exA) ∧ sentences (lines exA) = 2 := by decide
+/-- an unfinished sentence is not complete -/
+example : ¬ Complete (lines "#BOS 1\nit\t--\tN\t--\tHD\t0\n".toList) := by decide
+example : ids (readExport {} exA) = .ok [(7, 2), (9, 1)] ∧ ids (readExport {} exB) = .ok [(3, 1)] ∧
+    ids (readExport {} (exA ++ '\n' :: exB)) = .ok [(7, 2), (9, 1), (3, 1)] := by decide
+example : ids (readExport { continuous := true } exA) = .ok [(1, 2), (2, 1)] ∧
+    ids (readExport { continuous := true } exB) = .ok [(1, 1)] ∧
+    ids (readExport { continuous := true } (exA ++ '\n' :: exB)) = .ok [(1, 2), (2, 1), (3, 1)] := by decide
 
 end TT.Props.C18
